@@ -155,6 +155,8 @@ def coerce(v, ty):
     if isinstance(ty, TTuple) and isinstance(v.ty, TTuple) and len(ty.elems) == len(v.ty.elems):
         parts = [coerce(V(e, v.ty.acc(i, v.t)), ty.elems[i]).t for i, e in enumerate(v.ty.elems)]
         return V(ty, ty.mk(*parts))
+    if isinstance(ty, TSet) and isinstance(v.ty, TSet) and z3.is_K(v.t):
+        return V(ty, z3.K(ty.elem.sort(), False))       # the empty set literal `set()` at another element type
     if isinstance(ty, TBag) and isinstance(v.ty, TList) and v.ty.elem.sort() == ty.elem.sort():
         # a list LITERAL (concrete length) where a bag is expected: the order is abstracted
         nn = z3.simplify(list_len(v))
